@@ -21,6 +21,11 @@ from nanoemoji.colors import Color
 from picosvg.svg_transform import Affine2D
 from picosvg.geometric_types import Point
 
+
+# OpenType field ranges, stated here (not read from nanoemoji.fixed) so that a change to the code's constants cannot move the oracle
+OT_MIN_INT16, OT_MAX_INT16, OT_MIN_UINT16, OT_MAX_UINT16 = -32768, 32767, 0, 65535
+OT_MIN_F2DOT14, OT_MAX_F2DOT14 = Fraction(-2), Fraction(2**15 - 1, 2**14)
+
 TOL = Fraction(1, 1 << 14)  # one F2Dot14 ulp
 B = 40000  # beyond int16 and F2Dot14 limits
 
@@ -49,12 +54,12 @@ def near_int16(v, eps=Fraction(1, 10**6)):
     n1 = z3.ToReal(z3.If(t >= 0, z3.ToInt(t), -z3.ToInt(-t)))
     n2 = z3.ToReal(z3.ToInt(t + Fraction(1, 2)))
     near = z3.Or(z3.And(t - n1 <= eps, n1 - t <= eps), z3.And(t - n2 <= eps, n2 - t <= eps))
-    return z3.And(near, t >= fixed.MIN_INT16, t <= fixed.MAX_INT16)
+    return z3.And(near, t >= OT_MIN_INT16, t <= OT_MAX_INT16)
 
 
 def in_f2dot14(v):
     t = core.as_term(v)
-    return z3.And(t >= z3.RealVal(Fraction(fixed.MIN_F2DOT14)), t <= z3.RealVal(Fraction(fixed.MAX_F2DOT14)))
+    return z3.And(t >= z3.RealVal(OT_MIN_F2DOT14), t <= z3.RealVal(OT_MAX_F2DOT14))
 
 
 def field_ranges(p):
@@ -92,7 +97,7 @@ def _concrete_field_ok(p):
         return abs(v - round(v)) <= 1e-6 and -32768 <= v <= 32767
 
     def f2(v):
-        return -2.0 <= v <= fixed.MAX_F2DOT14
+        return -2.0 <= v <= float(OT_MAX_F2DOT14)
 
     if k == "PaintTranslate":
         return ni(p.dx) and ni(p.dy)
@@ -378,7 +383,7 @@ def job_linear(jc):
     p = [(inp["p0x"], inp["p0y"]), (inp["p1x"], inp["p1y"]), (inp["p2x"], inp["p2y"])]
     T = tuple(inp[f"t{i}"] for i in range(6))
     mapped = [ps.apply(T, q) for q in p]
-    in_range = z3.And(*[z3.And(core.as_term(c) >= fixed.MIN_INT16, core.as_term(c) <= fixed.MAX_INT16) for q in mapped for c in q])
+    in_range = z3.And(*[z3.And(core.as_term(c) >= OT_MIN_INT16, core.as_term(c) <= OT_MAX_INT16) for q in mapped for c in q])
     for r in results:
         if r.exc is not None:
             jc.reach(r, "OverflowError")
@@ -416,6 +421,11 @@ def jobs(tier):
     for sc in C02.SCENARIOS:
         if "radial" in sc or "residual" in sc:
             js.append(Job(f"otsvg docs[{sc}]", C02.job_docs, scenario=sc, affine="translation"))
+    # reading a compiled transform paint back (Paint.from_ot) must give the affine that was written
+    from harness import C13
+
+    for t in ("Transform>glyph>solid", "SkewAroundCenter>glyph>solid", "ScaleAroundCenter>glyph>solid", "RotateAroundCenter>glyph>solid"):
+        js.append(Job(f"colr->svg[{t}]", C13.job_c13, template=t, viewbox="150off", npal=1))
     return js
 
 
